@@ -1,6 +1,6 @@
 """C06: ARM decode -- every 32-bit word maps to the architectural instruction class."""
 from symx import stubs
-from vf import runner, step
+from vf import runner, step, famcheck
 from vf.runner import UnitSpec
 
 ISET = 'A'
@@ -17,6 +17,18 @@ def units(tier, seed=0):
     for name, pins in shards(tier):
         us.append(UnitSpec('decode/' + name, 'vf.decode', 'mk_decode',
                            dict(iset=name.split('/')[0], pins=[list(p) for p in pins], tables=T), max_seconds=1800))
+    # operand extraction / UNDEFINED outcomes: every table row of this instruction set through the real
+    # emulate_cycle with the instruction word fully symbolic; quick: a fixed register file of pairwise distinct
+    # values (cheap: no data-dependent paths); thorough: registers symbolic as in the functional checks
+    step.load_tables(T)
+    from spec.isa import ISA
+    rows = [n for n, e in ISA.items() if e.iset in ('A',)]
+    fams = set(ISA[n].family for n in rows)
+    if tier == 'quick':
+        light = [n for n in rows if ISA[n].family != 'mul']  # (multiply rows are solver-heavy: thorough tier)
+        us += famcheck.family_units(fams, [7], T, only=light, tag='/operands', reg_values='distinct')
+    else:
+        us += famcheck.family_units(fams, [7], T, only=rows, tag='/operands')
     return us
 
 
@@ -32,6 +44,7 @@ META = {
                    'the instruction word (state independence).',
     'bounds': ['exhaustive over the 2^32 words within the table coverage (rows listed in the evidence of the '
                'functional checks); words in no table row are only required to decode without host error'],
+    'bounds_rows': ['quick: operand rows run with a fixed register file of pairwise distinct values (instruction word, flags, IT state, memory symbolic); thorough: registers symbolic'],
     'outside': ['VFP / Advanced SIMD / banked-register MRS-MSR spaces (classified as unimplemented)',
                 'UNPREDICTABLE forms'],
     'stubs': stubs.STUBS_DOC,
